@@ -34,23 +34,24 @@ import (
 // nodes created from the same (filled) Config have identical keys and genesis blocks; use
 // New(n.Cfg) to create a twin of n (New stores the filled configuration in Node.Cfg).
 type Config struct {
-	NumValidators        int      // number of genesis validators (default 4)
-	Weights              []uint64 // BFT weights of the genesis validators (default all 1); weight 0 = generator only
-	BatchSize            int      // BFT batch size (default NumValidators)
-	BlockTime            uint32   // seconds per slot (default 10)
-	PrecommitThreshold   uint64   // default floor(2W/3)+1
-	CertificateThreshold uint64   // default floor(2W/3)+1
-	ChainID              []byte   // default 04000099
-	MaxBlockCache        int      // default 515 (the engine default)
-	KeepEventsForHeights *int     // default 0 (what engine.go effectively passes to blockchain.NewChain)
-	FS                   vfs.FS   // optional pebble file system (e.g. vfs.NewStrictMem()) - default: db.NewInMemoryDB()
-	Dir                  string   // database directory on FS (default "": the root of FS, as the pebble crash tests do)
-	GenesisHeight        uint32   // default 0
-	GenesisTimestamp     uint32   // default: now - 1_000_000 s rounded down to a slot boundary
-	Seed                 int64    // key derivation seed
-	ExtraValidators      int      // additional key holders that are not in the genesis set (for validator changes)
-	GenesisEvents        []*blockchain.Event
-	Logger               log.Logger // default: discards everything
+	NumValidators         int      // number of genesis validators (default 4)
+	Weights               []uint64 // BFT weights of the genesis validators (default all 1); weight 0 = generator only
+	BatchSize             int      // BFT batch size (default NumValidators)
+	BlockTime             uint32   // seconds per slot (default 10)
+	PrecommitThreshold    uint64   // default floor(2W/3)+1
+	CertificateThreshold  uint64   // default floor(2W/3)+1
+	ChainID               []byte   // default 04000099
+	MaxBlockCache         int      // default 515 (the engine default)
+	KeepEventsForHeights  *int     // default 0 (what engine.go effectively passes to blockchain.NewChain)
+	FS                    vfs.FS   // optional pebble file system (e.g. vfs.NewStrictMem()) - default: db.NewInMemoryDB()
+	Dir                   string   // database directory on FS (default "": the root of FS, as the pebble crash tests do)
+	GenesisHeight         uint32   // default 0
+	MaxTransactionsLength uint32   // payload size limit of a block, default 15 KiB (the engine default)
+	GenesisTimestamp      uint32   // default: now - 1_000_000 s rounded down to a slot boundary
+	Seed                  int64    // key derivation seed
+	ExtraValidators       int      // additional key holders that are not in the genesis set (for validator changes)
+	GenesisEvents         []*blockchain.Event
+	Logger                log.Logger // default: discards everything
 }
 
 // Validator is one key holder.
@@ -159,6 +160,9 @@ func (cfg *Config) fill() error {
 	}
 	if len(cfg.ChainID) == 0 {
 		cfg.ChainID = []byte{4, 0, 0, 0x99}
+	}
+	if cfg.MaxTransactionsLength == 0 {
+		cfg.MaxTransactionsLength = 15 * 1024
 	}
 	if cfg.MaxBlockCache == 0 {
 		cfg.MaxBlockCache = 515
@@ -300,7 +304,7 @@ func (n *Node) start() (err error) {
 	n.Conn = p2p.NewConnection(n.Logger, &p2p.Config{ChainID: n.Cfg.ChainID})
 	n.Chain = blockchain.NewChain(&blockchain.ChainConfig{
 		ChainID:               n.Cfg.ChainID,
-		MaxTransactionsLength: 15 * 1024,
+		MaxTransactionsLength: n.Cfg.MaxTransactionsLength,
 		MaxBlockCache:         n.Cfg.MaxBlockCache,
 		KeepEventsForHeights:  *n.Cfg.KeepEventsForHeights,
 	})
